@@ -50,7 +50,8 @@ RULE = ('cases = corpus + random requests (PATH_INFO, QUERY_STRING, Host, X-Forw
         'delegate to default_error_handler, request properties read before routing, debug given by constructor / setup() / '
         'attribute and switched between the requests of a sequence, route hooks, X-Script-Name, app_name_header, domain_map, '
         'missing environ keys, https/443, HEAD, an exception whose repr() raises, ordinary traffic (13 output types) and a '
-        'second application inside sequences')
+        'second application inside sequences; one request part blown up to 1-5 kB around the markup (5 % of the requests, '
+        'plus corpus cases at 1000..4096 characters; the thorough tier sweeps every length 960..1060 and up to 8 kB)')
 TRUSTED = [
     'section variable isprintable (Unicode table behind str.isprintable, consulted by repr for code points >= 128): '
     'arbitrary in every theorem; in the correspondence the harness supplies the non-printable code points of each case',
@@ -1079,6 +1080,31 @@ def corpus():
         prim('loads', '{"a": 1}'), prim('loads', '{"a": {}}'), prim('loads', '{a: "b"}'), prim('loads', "{'a': 'b'}"),
         prim('loads', '\ufeff{}'), prim('loads', '{"a":\x0c"b"}'), prim('loads', '{"a": "b"}\x00'),
     ]
+    # long requests (seeded change C20-8: a length guard that echoed the raw url once the escaped url passed 1024
+    # characters).  Escaping must hold for every length: markup inside 1-5 kB of padding, in each request part.
+    for k in KINDS:
+        out.append(page(k, tail='u', qs=long_text(XSS, 1100)))
+        out.append(page(k, tail='u', qs=long_text(XSS, 3000, '&', 'around'), accept=J))
+    out += [
+        page('404', tail='u', qs=long_text(XSS, 2000, 'a', 'before')),
+        page('404', tail='u', qs=long_text('"', 1500, "'")), page('404', tail='u', qs=long_text("'", 1500, '{0}')),
+        page('404', tail=long_text('<b>', 1200, 'ab/'), qs=''), page('405', tail=long_text(XSS, 2500, 'a', 'around'), qs=''),
+        page('404', tail='u', host=long_text(XSS, 1100)), page('404', tail='u', xfh=long_text(ATTR, 1100, '&'), host='h'),
+        page('crash', tail='u', qs=long_text(XSS, 5000), msg=long_text('<m>', 2000)),
+        page('crash', tail='u', qs=long_text(XSS, 1500), msg=long_text('<m>', 2000, '\n'), debug=True),
+        page('crash', tail='u', qs='', msg=long_text('"<m>', 3000, '\x00'), accept=J),
+        page('400path', tail=long_text('<b>', 1500, '\xff'), qs=long_text(XSS, 1500)),
+        crit('hdr', tail=long_text(XSS, 3000, '&')), crit('errhandler', tail=long_text(XSS, 1500, '<'), debug=True,
+                                                      msg=long_text('<m>', 1500)),
+        seq([step('404', 'u', long_text(XSS, 1100)), step('404', 'u', long_text(XSS, 1100), accept=J),
+             step('404', 'u', long_text(XSS, 900))]),
+        prim('escape', long_text(XSS, 3000, '&')), prim('html_escape', long_text(XSS, 3000, "'")),
+        prim('repr', long_text("'\"", 3000, '\\')), prim('dumps', long_text('"', 3000, '\U0001F600')),
+        prim('loads', '{"k": %s}' % json.dumps(long_text('"', 3000, '\u00e9'))),
+    ]
+    # the escaped url just below / at / above round sizes
+    for n in (1000, 1015, 1023, 1024, 1025, 2048, 4096):
+        out.append(page('404', tail='u', qs=long_text('<', n, 'a', 'before')))
     return out
 
 
@@ -1103,6 +1129,32 @@ def _gen_latin(rng, lo=0, hi=6):
     return _junk(rng, VOCAB + CTRL + HIGH_LATIN, rng.randrange(lo, hi))
 
 
+FILLERS = ['a', 'ab/', '&', "'", '<', '%41', '{0}', '\xe9', ' ']
+LONG_LENGTHS = [1000, 1019, 1023, 1024, 1025, 1030, 1100, 2047, 2048, 2049, 3000, 4096, 5000]
+
+
+def long_text(markup, n, filler='a', where='after'):
+    """markup surrounded by about n characters of filler (length-dependent code paths: truncation, size guards)"""
+    pad = (filler * (n // len(filler) + 1))[:n]
+    if where == 'before':
+        return pad + markup
+    if where == 'around':
+        return pad[:n // 2] + markup + pad[n // 2:]
+    return markup + pad
+
+
+def _gen_long(rng, c):
+    """blow one request part up to 1-5 kB, the markup staying inside"""
+    k = rng.choice(['qs', 'qs', 'tail', 'host', 'xfh'])
+    markup = rng.choice([XSS, ATTR, '<b>', '"', "'", '&', '{0}', '</tt><script>', c.get(k) or '<i>'])
+    filler = rng.choice(FILLERS)
+    if k == 'tail':
+        filler = rng.choice(['a', 'ab/', '<', "'", '{0}', ' '])       # stays UTF-8, no LF
+    n = rng.choice(LONG_LENGTHS) if rng.random() < 0.6 else rng.randrange(900, 5200)
+    c[k] = long_text(markup, n, filler, rng.choice(['after', 'before', 'around']))
+    return c
+
+
 def _gen_request(rng, c):
     c['tail'] = _gen_tail(rng)
     c['qs'] = _gen_latin(rng) if rng.random() < 0.8 else ''
@@ -1118,6 +1170,8 @@ def _gen_request(rng, c):
         c['port'] = rng.choice(['8080', '443', '<80>', ''])
     if rng.random() < 0.08:
         c['server_name'] = rng.choice(['srv', '<srv>', 'a"b'])
+    if rng.random() < 0.05:
+        _gen_long(rng, c)
     r = rng.random()
     if r < 0.3:
         c['accept'] = 'application/json'
@@ -1325,6 +1379,14 @@ def gen(rng, n):
 def thorough():
     """every kind/trigger x every single vocabulary item in each request position (bounded-exhaustive over the vocabulary)"""
     items = VOCAB + CTRL + HIGH_LATIN
+    # lengths: every escaped-url length around 1 kB, and a coarse sweep up to 8 kB, markup first / last
+    for n in list(range(960, 1060)) + list(range(1100, 8200, 355)):
+        yield page('404', tail='u', qs=long_text('<b>"', n, 'a', 'before'))
+        yield page('404', tail='u', qs=long_text('<b>"', n, '&', 'after'))
+    for k in KINDS:
+        for n in (1024, 2048, 4096, 8192):
+            for part in ('qs', 'host', 'tail'):
+                yield page(k, **dict(dict(tail='u', qs=''), **{part: long_text('<b>', n, 'a', 'around')}))
     for k in KINDS:
         for it in items:
             for acc in (None, 'application/json'):
@@ -1393,9 +1455,23 @@ def classify(case, obs):
                                'debug' if case.get('debug') else 'nodebug', str(obs.get('status', '?'))[:3])
 
 
+def _chunks(s):
+    """candidates that drop big pieces of a long string (halves, quarters, ... down to 16 characters)"""
+    n = len(s)
+    size = n // 2
+    while size >= 16:
+        for i in range(0, n, size):
+            yield s[:i] + s[i + size:]
+        size //= 2
+
+
 def shrink(case):
     if case['t'] == 'prim':
         s = case['s']
+        if len(s) > 64:
+            for c in _chunks(s):
+                yield dict(case, s=c)
+            return
         for i in range(len(s)):
             yield dict(case, s=s[:i] + s[i + 1:])
         return
@@ -1430,6 +1506,12 @@ def shrink(case):
             yield c
     for k in ('tail', 'qs', 'host', 'xfh', 'msg'):
         s = case.get(k)
+        if s and len(s) > 64:
+            for cs in _chunks(s):
+                if k == 'tail' and (case.get('kind') or case.get('trigger')) not in UNDECODABLE and not _decodable(cs):
+                    continue
+                yield dict(case, **{k: cs})
+            continue
         if s:
             for i in range(len(s)):
                 c = dict(case, **{k: s[:i] + s[i + 1:]})
@@ -1441,7 +1523,7 @@ def shrink(case):
 
 
 def _pred_badrepr_json(case, what, m):
-    """F38 (until the fix: commit is in /repo): a handler failing with an exception whose repr() raises, JSON requested"""
+    """F38 (fixed by 1531cee; the case stays in the corpus): a handler failing with an exception whose repr() raises, JSON requested"""
     return (case.get('t') == 'page' and bool(case.get('badrepr')) and case.get('kind') == 'crash'
             and (case.get('accept') or '').startswith('application/json'))
 
